@@ -446,6 +446,70 @@ func c01(args []string) {
 			c.Count("write_api_ok", 1)
 		}
 		c.Drop(root)
+		// the same with an out-port that is declared only through SetOut (not in the command pattern), in a nested directory
+		root2 := c.CaseDir()
+		s2 := &spec.Spec{Name: "writeapi_setout", MaxTasks: 2, Sources: map[string]string{"in.txt": "x\n"}}
+		s2.Procs = append(s2.Procs, &spec.Proc{Name: "src", Kind: spec.KFileSource, Files: []string{"in.txt"}},
+			&spec.Proc{Name: "W", Kind: spec.KGoFunc, WriteAPI: true, Cmd: spec.VcmdPath + " run id=W i=in:{i:in}", Outs: []*spec.Out{{Port: "res", Pattern: "wdir/{i:in|basename}.w.res"}}},
+			&spec.Proc{Name: "after", Kind: spec.KCmd, Cmd: spec.BuildCmd("after", []spec.PortDecl{{Name: "in"}}, []spec.PortDecl{{Name: "out"}}, nil, nil, nil)})
+		s2.Conns = append(s2.Conns, &spec.Conn{From: "src.out", To: "W.in"}, &spec.Conn{From: "W.res", To: "after.in"})
+		res2 := execSpec(c, root2, s2, Cfg{Buf: 128, Procs: 2}, nil, false, 0)
+		snap2 := mon.SnapRoot(root2)
+		_, atFinal2 := snap2["wd/wdir/in.txt.w.res"]
+		if res2.Exit != 0 && atFinal2 {
+			c.Violation("documented-write-api-writes-final-path:setout-only-port", fmt.Sprintf("Go function writing an out-port declared with SetOut through task.OutIP(port).Write(): the workflow failed (exit %d) and the file exists at its final path", res2.Exit),
+				map[string]interface{}{"spec": s2, "output_tail": tail(res2.Output(), 500)})
+		} else if res2.Exit != 0 {
+			c.Violation("documented-write-api-fails", fmt.Sprintf("Go function writing an out-port declared with SetOut through task.OutIP(port).Write() failed (exit %d): %s", res2.Exit, tail(res2.Output(), 400)), map[string]interface{}{"spec": s2})
+		} else {
+			c.Count("write_api_ok", 1)
+			c.Nontrivial("writeapi-setout-only")
+		}
+		c.Drop(root2)
+	}
+	// FileSplitter writes its parts through a temp directory too: whatever exists at a part's final path after a
+	// kill at a logical instant must be the complete part
+	{
+		var lines strings.Builder
+		for i := 0; i < 1500; i++ {
+			fmt.Fprintf(&lines, "line %04d of the big file\n", i)
+		}
+		nk := c.Pick(10, 60)
+		run.Parallel(nk, func(i int) {
+			root := c.CaseDir()
+			defer c.Drop(root)
+			s := &spec.Spec{Name: "splitkill", MaxTasks: 2, Sources: map[string]string{"big.txt": lines.String()}}
+			s.Procs = append(s.Procs, &spec.Proc{Name: "src", Kind: spec.KFileSource, Files: []string{"big.txt"}}, &spec.Proc{Name: "SP", Kind: spec.KSplitter, Lines: 7},
+				&spec.Proc{Name: "use", Kind: spec.KCmd, Cmd: spec.BuildCmd("use", []spec.PortDecl{{Name: "in"}}, []spec.PortDecl{{Name: "out"}}, nil, nil, nil)})
+			s.Conns = append(s.Conns, &spec.Conn{From: "src.out", To: "SP.file"}, &spec.Conn{From: "SP.split_file", To: "use.in"})
+			exp := evalRef(s, nil)
+			cs := &run.Case{Root: root, Bin: c.Bin, Spec: s, Env: Cfg{Buf: []int{1, 3, 128}[i%3], Procs: 4}.env(), KillAtTraceLine: 1 + (i*7)%90}
+			c.Eval(1)
+			res := cs.Run()
+			snap := mon.SnapRoot(root)
+			var ps []mon.Problem
+			nparts := 0
+			for p, content := range exp.Files {
+				if !strings.Contains(p, ".split_") || strings.Contains(p, ".use.") {
+					continue
+				}
+				if e, ok := snap["wd/"+p]; ok {
+					nparts++
+					if e.Sha != vproto.Sha(content) {
+						ps = append(ps, mon.Problem{Sig: "splitter-part-incomplete-at-final-path", Msg: fmt.Sprintf("%s exists at its final path with %d bytes, the complete part has %d", p, e.Size, len(content))})
+					}
+				}
+			}
+			ps = append(ps, mon.Atomicity(root, snap, exp, mon.Index(res.Trace), preRootSet(root, s))...)
+			if len(ps) > 0 {
+				c.Violation(ps[0].Sig+"|kill", strings.Join(mon.Summarize(ps, 4), "\n  "), map[string]interface{}{"spec_name": s.Name, "kill_at_trace_line": cs.KillAtTraceLine, "problems": mon.Summarize(ps, 10)})
+				return
+			}
+			c.Count("splitter_parts_judged_after_kill", nparts)
+			if res.Signal != "" && nparts > 0 {
+				c.Nontrivial(fmt.Sprintf("splitkill|%d|%d", cs.KillAtTraceLine, nparts))
+			}
+		})
 	}
 	c.Finish()
 }
